@@ -56,6 +56,23 @@ Definition wd_recreate : list op :=
 Definition wd_kind_swap : list op :=
   [Mkdir [1]; SyncDir []; Rmdir [1]; O_RWC 1 [1]; WriteAt 1 0 [65] false; SyncAll 1; Crash []; Stat [1]].
 
+(* cross-directory rename of a data-synced file, old parent synced before the new one: lost *)
+Definition wd_rename_cross_src_first : list op :=
+  clean_file_d_a ++ [Rename [4; 1] [6; 1]; SyncDir [4]; SyncDir [6]; Crash []; Slurp [6; 1]].
+(* the same with the new parent synced (the seeded scenario): the crate is right *)
+Definition wd_rename_cross_clean : list op :=
+  clean_file_d_a ++ [Rename [4; 1] [6; 1]; SyncDir [6]; Crash []; Slurp [6; 1]; Exists [4; 1]].
+
+Lemma c07_rename_cross_src_first_refuted_lemma :
+  dspec_out 0 wd_rename_cross_src_first 11 = OBytes [65; 66] /\
+  dimpl_out 0 wd_rename_cross_src_first 11 = OErr ENOENT.
+Proof. vm_compute. auto. Qed.
+
+Lemma c07_rename_cross_clean_example_lemma :
+  Forall2 obs_ok (snd (drun (init_dworld 0) wd_rename_cross_clean)) (snd (run (init_world 0) wd_rename_cross_clean)) /\
+  dimpl_out 0 wd_rename_cross_clean 10 = OBytes [65; 66] /\ dimpl_out 0 wd_rename_cross_clean 11 = OBool false.
+Proof. vm_compute. split; [repeat constructor|split; reflexivity]. Qed.
+
 Lemma c07_rename_file_refuted_lemma :
   d_in_class 0 KRenameFile wd_rename_file = true /\
   dspec_out 0 wd_rename_file 9 = OBytes [65; 66] /\ dimpl_out 0 wd_rename_file 9 = OBytes [].
